@@ -53,6 +53,26 @@ pub fn real_verifiers(key: &[u8; 32], msg: &[u8], sig: &[u8; 64], ctx: Option<&[
         }
     };
     let sg = Signature::from_bytes(sig);
+    // the slice constructor is a separate route to a key (also the one serde and keypair import take): it must yield
+    // the same key, bytes included (the hash H(R || A || M) is taken over the stored bytes)
+    match guarded(|| VerifyingKey::try_from(&key[..])) {
+        Ok(Ok(vk2)) => {
+            if vk2.as_bytes() != key || vk2.to_bytes() != *key || vk2 != vk {
+                out.push(("VerifyingKey::try_from(&[u8])", false, Err("the key built from a slice does not keep the bytes it was built from".into())));
+            }
+            match ctx {
+                None => {
+                    out.push(("try_from(&[u8]).verify", false, guarded(|| vk2.verify(msg, &sg).is_ok())));
+                    out.push(("try_from(&[u8]).verify_strict", true, guarded(|| vk2.verify_strict(msg, &sg).is_ok())));
+                }
+                Some(c) => {
+                    out.push(("try_from(&[u8]).verify_prehashed", false, guarded(|| vk2.verify_prehashed(Sha512::new().chain_update(msg), Some(c), &sg).is_ok())));
+                }
+            }
+        }
+        Ok(Err(_)) => out.push(("VerifyingKey::try_from(&[u8])", false, Err("refuses key bytes that from_bytes accepts".into()))),
+        Err(e) => out.push(("VerifyingKey::try_from(&[u8])", false, Err(e))),
+    }
     match ctx {
         None => {
             out.push(("Verifier::verify", false, guarded(|| vk.verify(msg, &sg).is_ok())));
